@@ -109,6 +109,8 @@ EXTRA.setdefault("C12", []).append("Every modular comparison of the cascade uses
 EXTRA["C02"].append("Re-pins during a collection are gated by the guard count (F13, fixed); stamp windows are fresh (F17, fixed).")
 EXTRA["C02"].append("Known finding F18: the same-pass destruction of a child is not gated on guards that pop_edges/Drop of its parent "
                     "created and kept.")
+for _p in ("C01", "C03", "C05"):
+    EXTRA.setdefault(_p, []).append("Known finding F19: increments of the 29-bit count fields are unbounded (CW-COUNT-OVERFLOW).")
 EXTRA["C04"].append("Known finding F14: a panicking user destructor during a collection (no unwind guard in unpin / Bag::drop).")
 EXTRA["C15"].append("Known finding F14: a panicking user destructor during a collection (no unwind guard in unpin / Bag::drop).")
 EXTRA["C16"] = ["unpin writes back a guard count read after the collection (F11, fixed)."]
